@@ -208,15 +208,16 @@ type gtask struct {
 }
 
 type gsched struct {
-	ctx    *simrt.Ctx
-	mu     sync.Mutex
-	parked []*gtask
-	height map[int64]int64 // goid -> height it works on (pass 0)
-	retry  int64           // goid of the handler goroutine (sequential re-download)
-	start  int64
-	count  int64
-	steps  int
-	off    bool
+	ctx      *simrt.Ctx
+	mu       sync.Mutex
+	parked   []*gtask
+	height   map[int64]int64 // goid -> height it works on (pass 0)
+	retry    int64           // goid of the handler goroutine (sequential re-download)
+	start    int64
+	count    int64
+	steps    int
+	livelock bool // the step bound of a terminating task was exceeded
+	off      bool
 	// retrySteps counts the seams passed by the sequential re-download pass
 	retrySteps map[string]int
 }
@@ -244,6 +245,9 @@ func (s *gsched) heightOf(goid int64) int64 {
 // a seam and the handler did not return for `patience` of virtual time.
 func (s *gsched) drive(done chan struct{}) (stuck bool) {
 	idle := time.Duration(0)
+	s.mu.Lock()
+	base := s.steps // steps are counted over all tasks of a run
+	s.mu.Unlock()
 	for {
 		synctest.Wait()
 		select {
@@ -263,6 +267,14 @@ func (s *gsched) drive(done chan struct{}) (stuck bool) {
 			continue
 		}
 		idle = 0
+		// Every height makes at most 50 attempts in each of the two passes and an
+		// attempt crosses at most four seams: a task still scheduling far beyond
+		// that never terminates (each further round costs virtual time only).
+		if int64(s.steps-base) > s.count*2*52*4+2000 {
+			s.livelock = true
+			s.mu.Unlock()
+			return true
+		}
 		// the per-height goroutines are created in height order before any of
 		// them is released: rank by goroutine id = offset in the range
 		if len(s.height) == 0 {
@@ -681,6 +693,9 @@ func runTask(ctx *simrt.Ctx, n *node, sched *gsched, mu *sync.Mutex, peers []*dl
 	// 1. termination
 	if stuck {
 		sched.release()
+		if sched.livelock {
+			return ctx.Violate("download-never-terminates", "retry-budget-exceeded", "task %d..%d: the handler has not returned after %d scheduling steps of the run (%v of virtual time); every height may make at most 50 attempts per pass, so the task is looping without consuming its retry budget", start, start+count-1, sched.steps, elapsed)
+		}
 		if *stalledForever > 0 {
 			return ctx.Violate("download-never-terminates", "peer-stalls-forever", "task %d..%d: handler did not return; no download goroutine made progress for %v of virtual time (%v after the task started) while %d stream(s) are held open by a peer that never answers: the read has no deadline", start, start+count-1, c35Patience, elapsed, *stalledForever)
 		}
